@@ -164,7 +164,7 @@ func (fc *FnCtx) builtinCopy(s *State, x *ssa.Call, dst, src Val) Val {
 	body := mkAnd(
 		mkImp(in, mkEq(mkSelect(newDst, j), mkSelect(oldSrc, mkAdd(src.Off, mkSub(j, dst.Off))))),
 		mkImp(mkNot(in), mkEq(mkSelect(newDst, j), mkSelect(oldDst, j))))
-	s.assume(&Term{Op: "forall", Sort: SBool, Name: "?j", Args: []*Term{body}})
+	s.assume(mkForall("?j", body))
 	registerFrame(newDst, oldDst, dst.Off, mkAdd(dst.Off, nc))
 	// value-level consequence (lemma V_copy: equal words give equal values), used by callers
 	s.assume(mkEq(mkV(newDst, dst.Off, mkAdd(dst.Off, nc)), mkV(oldSrc, src.Off, mkAdd(src.Off, nc))))
@@ -472,7 +472,12 @@ func (fc *FnCtx) applyContract(s *State, x *ssa.Call, ct *Contract, callee *ssa.
 			var next []*State
 			for _, st := range states {
 				henv := &Env{fc: fc, names: map[string]Val{}, cellsAt: st, heap: st.heap, oldNames: fc.entry, oldHeap: fc.oldHeap, pos: x.Pos(),
-					nalloc0: fc.nalloc0, nobj0: fc.nobj0}
+					nalloc0: fc.nalloc0, nobj0: fc.nobj0, bound: map[string]Val{"result": result}}
+				if result.K == VTuple {
+					for i, el := range result.Elems {
+						henv.bound[fmt.Sprintf("result%d", i)] = el
+					}
+				}
 				if h.E.Kind == "call" && h.E.Name == "cases" && len(h.E.Args) == 3 {
 					// cases(result, lo, hi): case split on the call's (integer) result
 					lo, hi := h.E.Args[1].Val, h.E.Args[2].Val
@@ -619,7 +624,7 @@ func (fc *FnCtx) havocFrame(s *State, fr *Frame, old map[string]*Term) {
 		s.heap["Mem"] = mkStore(mem, r.Arr, nm)
 		j := mkConst("?j", SInt)
 		body := mkImp(mkNot(mkAnd(mkLe(r.Lo, j), mkLt(j, r.Hi))), mkEq(mkSelect(nm, j), mkSelect(before, j)))
-		s.assume(&Term{Op: "forall", Sort: SBool, Name: "?j", Args: []*Term{body}})
+		s.assume(mkForall("?j", body))
 		registerFrame(nm, before, r.Lo, r.Hi)
 	}
 }
